@@ -192,6 +192,7 @@ class Ctx(object):
 def run_cases(mod, ctx, cases, case_timeout):
     """Run an iterable of case descriptors in this process."""
     wd = Watchdog()
+    timeouts = 0
     for case in cases:
         ctx.case = case
         ctx.evaluations += 1
@@ -203,6 +204,12 @@ def run_cases(mod, ctx, cases, case_timeout):
                 wd.disarm()
         except CaseTimeout:
             ctx.mark_inconclusive("wall-clock watchdog (%ss) fired" % case_timeout)
+            timeouts += 1
+            if timeouts >= 3:
+                # something hangs systematically: stop this shard and report what was observed so far
+                ctx.mark_inconclusive("3 cases hit the wall-clock watchdog; shard stopped early")
+                ctx.events["shard-stopped-early"] += 1
+                break
         except KeyboardInterrupt:
             raise
         except BaseException as e:  # uncaught: library crash the monitors did not anticipate
